@@ -559,7 +559,9 @@ void verif::verif_case(Rng & rng, long idx, const std::string &) {
         }
         // copy: the copy continues exactly like the original (engine state is copied), and copying does not disturb the original
         { A::Seeder::setRootSeed(root); Obj x = st.make(ps);
-          if (x.clone) {
+          // (not for objects whose calls draw a seed from the global Seeder — PBVI/PERSEUS build a BeliefGenerator per call —: the original's and
+          //  the copy's calls alternate here, so each gets another seed; thorough seed 1 case 2119 showed exactly that and nothing else)
+          if (x.clone && !st.drawsSeeds) {
               Out ox, oc; cat(ox, x.step(0)); Obj c = x.clone(); oc = ox;
               for (int k = 1; k < st.nsteps; ++k) { cat(ox, x.step(k)); cat(oc, c.step(k)); }
               emit(sj.name, "copy_replays", ox, oc);
